@@ -1,7 +1,55 @@
 package main
 
-// Replay of refuted obligations against the real code (go test -overlay). Filled in per obligation kind.
+// Replay of failed obligations against the real code.
+// A property may have a witness harness /verif/replay/<prop>.sh: it runs a small corpus of concrete inputs for that
+// property against the working tree (go test -overlay, nothing is written to the repo) and prints
+// "REPLAY-CONFIRMED <input>" lines for inputs on which the real code violates the property. This is witness search
+// for an obligation the verifier already failed to discharge - it is never the deciding step.
+
+import (
+	"context"
+	"os"
+	"os/exec"
+	"path/filepath"
+	"strings"
+	"sync"
+	"time"
+)
+
+var replayCache = map[string]map[string]any{}
+var replayMu sync.Mutex
 
 func attemptReplay(prop string, ob *Obligation, p *Prog, dir string) map[string]any {
-	return map[string]any{"attempted": false, "confirmed": false, "reason": "no replay generator for this obligation kind; the solver output above is the evidence"}
+	replayMu.Lock()
+	defer replayMu.Unlock()
+	if r, ok := replayCache[prop]; ok {
+		return r
+	}
+	script := filepath.Join(verifDir, "replay", prop+".sh")
+	if st, err := os.Stat(script); err != nil || st.Mode()&0111 == 0 {
+		r := map[string]any{"attempted": false, "confirmed": false, "reason": "no witness harness for this property; the solver output above is the evidence"}
+		replayCache[prop] = r
+		return r
+	}
+	ctx, cancel := context.WithTimeout(context.Background(), 300*time.Second)
+	defer cancel()
+	cmd := exec.CommandContext(ctx, script)
+	cmd.Env = append(os.Environ(), "OBLIGATION="+ob.Name, "REPO="+repoDir)
+	out, err := cmd.CombinedOutput()
+	txt := string(out)
+	var confirmed []string
+	for _, l := range strings.Split(txt, "\n") {
+		if strings.HasPrefix(strings.TrimSpace(l), "REPLAY-CONFIRMED") {
+			confirmed = append(confirmed, strings.TrimSpace(l))
+		}
+	}
+	if len(txt) > 6000 {
+		txt = txt[:6000] + "\n…"
+	}
+	r := map[string]any{"attempted": true, "confirmed": len(confirmed) > 0, "harness": script, "failing_inputs": confirmed, "log": txt}
+	if err != nil && len(confirmed) == 0 {
+		r["note"] = "harness exit: " + err.Error()
+	}
+	replayCache[prop] = r
+	return r
 }
